@@ -200,6 +200,23 @@ func (ex *Exec) eqBytes(a, b []*Term) *Term {
 			p++
 			continue
 		}
+		if ra, rb := ex.resolveView(a[p]), ex.resolveView(b[p]); ra != a[p] || rb != b[p] {
+			_, _, aok := ex.idealByte(ra)
+			_, _, bok := ex.idealByte(rb)
+			switch {
+			case bok && !aok:
+				res = c.And(res, ex.idealEqByte(ra, rb))
+			case aok && !bok:
+				res = c.And(res, ex.idealEqByte(rb, ra))
+			default:
+				res = c.And(res, c.Eq(ra, rb))
+			}
+			p++
+			if res.IsFalse() {
+				return res
+			}
+			continue
+		}
 		aa, ao, aok := ex.idealByte(a[p])
 		ba, bo, bok := ex.idealByte(b[p])
 		switch {
@@ -566,7 +583,13 @@ func (ex *Exec) aeadOpen(key []*Term, dst Value, nonce, ct, ad Value, cs *callSi
 }
 
 // allEq: quantifier-free condition for "s[i] == name(i) for all i < n" where
-// name is an ideal stream. Distinct streams never coincide (ideal model).
+// name is an ideal stream. F(x) := [content[x] == name(x+tshift)] is a
+// piecewise-constant function of x (an ideal stream byte equals another ideal
+// byte iff it is the same stream at the same index, so inside a piece the
+// verdict does not depend on x); its pieces start at lo or at a breakpoint of
+// the copy/store structure. Hence "for all x in [lo,hi)" is equivalent to F at
+// lo and at every breakpoint that falls into [lo,hi): a conjunction of
+// O(nodes) evaluations instead of a quantifier.
 func (ex *Exec) allEq(s Slice, name string, n *Term) *Term {
 	c := ex.C
 	if s.Arr == nil {
@@ -576,9 +599,112 @@ func (ex *Exec) allEq(s Slice, name string, n *Term) *Term {
 	hi := c.Bin(OAdd, s.Off, n)
 	tshift := c.Un(ONeg, s.Off)
 	if s.Arr.isDense() {
+		if off, ok := ex.constOf(s.Off); ok {
+			if k, okn := ex.constOf(n); okn && off >= 0 && off+k <= int64(len(s.Arr.Dense)) && k >= 2 {
+				if nm, base, oku := uniformStream(s.Arr.Dense[off : off+k]); oku {
+					if v := ex.viewOf(nm); v != nil {
+						arr := &ArrObj{Elem: s.Arr.Elem, N: c.Bin(OAdd, v.off, ex.i64(base+k)), Content: v.content}
+						vs := Slice{Arr: arr, Off: c.Bin(OAdd, v.off, ex.i64(base)), Len: n, Cap: n}
+						return ex.allEq(vs, name, n)
+					}
+				}
+			}
+		}
 		return ex.holdsDense(s.Arr.Dense, lo, hi, tshift, name)
 	}
-	return ex.holds(s.Arr.Content, lo, hi, tshift, name, 0)
+	pts := []*Term{lo}
+	seen := map[int]bool{lo.ID: true}
+	ex.breakpoints(s.Arr.Content, ex.i64(0), &pts, seen, 0)
+	res := c.True()
+	for _, t := range pts {
+		in := c.And(c.Cmp(OSle, lo, t), c.Cmp(OSlt, t, hi))
+		if in.IsFalse() {
+			continue
+		}
+		res = c.And(res, c.Implies(in, ex.eqAt(s.Arr.Content, t, tshift, name, 0)))
+		if res.IsFalse() {
+			return res
+		}
+	}
+	return res
+}
+
+// breakpoints collects, in the coordinates of the top-level array (x_top =
+// x_level + delta), the indices at which the source of content can change.
+func (ex *Exec) breakpoints(ct symContent, delta *Term, out *[]*Term, seen map[int]bool, depth int) {
+	c := ex.C
+	if depth > 60 {
+		panic(unsupported("content tree too deep in ciphertext comparison"))
+	}
+	add := func(t *Term) {
+		t = c.Bin(OAdd, t, delta)
+		if !seen[t.ID] {
+			seen[t.ID] = true
+			*out = append(*out, t)
+		}
+	}
+	switch n := ct.(type) {
+	case symBase, symZero:
+	case *symStore:
+		add(n.idx)
+		add(c.Bin(OAdd, n.idx, ex.i64(1)))
+		ex.breakpoints(n.prev, delta, out, seen, depth+1)
+	case *symCopy:
+		add(n.doff)
+		add(c.Bin(OAdd, n.doff, n.n))
+		sd := c.Bin(OAdd, delta, c.Bin(OSub, n.doff, n.soff))
+		if n.srcDense != nil {
+			for k := range n.srcDense {
+				t := c.Bin(OAdd, ex.i64(int64(k)), sd)
+				if !seen[t.ID] {
+					seen[t.ID] = true
+					*out = append(*out, t)
+				}
+			}
+		} else {
+			ex.breakpoints(n.src, sd, out, seen, depth+1)
+		}
+		ex.breakpoints(n.prev, delta, out, seen, depth+1)
+	}
+}
+
+// eqAt: [content[x] == name(x + tshift)] as a Bool term.
+func (ex *Exec) eqAt(ct symContent, x, tshift *Term, name string, depth int) *Term {
+	c := ex.C
+	switch n := ct.(type) {
+	case symBase:
+		if n.name == name {
+			return c.Eq(tshift, ex.i64(0))
+		}
+		return c.False()
+	case symZero:
+		return c.False()
+	case *symStore:
+		rest := ex.eqAt(n.prev, x, tshift, name, depth+1)
+		want := c.UF(name, BV(8), c.Bin(OAdd, x, tshift))
+		return c.Ite(c.Eq(x, n.idx), ex.idealEqByte(n.val.(*Term), want), rest)
+	case *symCopy:
+		rest := ex.eqAt(n.prev, x, tshift, name, depth+1)
+		in := c.And(c.Cmp(OUle, n.doff, x), c.Cmp(OUlt, c.Bin(OSub, x, n.doff), n.n))
+		if in.IsFalse() {
+			return rest
+		}
+		sx := c.Bin(OAdd, c.Bin(OSub, x, n.doff), n.soff)
+		sts := c.Bin(OAdd, c.Bin(OSub, n.doff, n.soff), tshift)
+		var inside *Term
+		if n.srcDense != nil {
+			inside = c.False()
+			for k := len(n.srcDense) - 1; k >= 0; k-- {
+				kt := ex.i64(int64(k))
+				want := c.UF(name, BV(8), c.Bin(OAdd, kt, sts))
+				inside = c.Ite(c.Eq(sx, kt), ex.idealEqByte(n.srcDense[k].(*Term), want), inside)
+			}
+		} else {
+			inside = ex.eqAt(n.src, sx, sts, name, depth+1)
+		}
+		return c.Ite(in, inside, rest)
+	}
+	panic(fmt.Sprintf("eqAt: %T", ct))
 }
 
 func (ex *Exec) emptyIv(lo, hi *Term) *Term { return ex.C.Cmp(OSle, hi, lo) }
@@ -586,7 +712,6 @@ func (ex *Exec) emptyIv(lo, hi *Term) *Term { return ex.C.Cmp(OSle, hi, lo) }
 func (ex *Exec) holdsDense(cells []Value, lo, hi, tshift *Term, name string) *Term {
 	c := ex.C
 	res := c.True()
-	// indices beyond the dense array cannot be in a valid interval; treat as violated
 	for k := range cells {
 		kt := ex.i64(int64(k))
 		in := c.And(c.Cmp(OSle, lo, kt), c.Cmp(OSlt, kt, hi))
@@ -599,79 +724,56 @@ func (ex *Exec) holdsDense(cells []Value, lo, hi, tshift *Term, name string) *Te
 			return res
 		}
 	}
-	res = c.And(res, c.Cmp(OSle, hi, c.Ite(ex.emptyIv(lo, hi), hi, ex.i64(int64(len(cells))))))
+	// the interval must lie inside the array
+	res = c.And(res, c.Or(ex.emptyIv(lo, hi), c.Cmp(OSle, hi, ex.i64(int64(len(cells))))))
 	return res
 }
 
-// idealEqByte: equality of a byte term with a byte of an ideal stream.
+// idealEqByte: equality of a byte term with a byte of an ideal stream, decided
+// structurally so that no uninterpreted-function value reasoning reaches the
+// solver: the same stream at the same index is equal, anything else that is
+// ideal, constant or an invented (junk) stream byte is not; ite and xor are
+// pushed through (a flipped ideal byte equals an ideal byte only if the mask
+// is zero and the unflipped byte is that byte).
 func (ex *Exec) idealEqByte(have, want *Term) *Term {
 	c := ex.C
 	if have == want {
 		return c.True()
 	}
-	if have.IsConst() {
+	have = ex.resolveView(have)
+	switch have.Op {
+	case OConst:
 		return c.False()
-	}
-	if have.Op == OUF && len(have.Args) == 1 && strings.Contains(have.Name, "!") {
-		if have.Name != want.Name {
-			return c.False()
+	case OUF:
+		if len(have.Args) == 1 {
+			if have.Name != want.Name {
+				return c.False()
+			}
+			return c.Eq(have.Args[0], want.Args[0])
 		}
-		return c.Eq(have.Args[0], want.Args[0])
+	case OIte:
+		return c.Ite(have.Args[0], ex.idealEqByte(have.Args[1], want), ex.idealEqByte(have.Args[2], want))
+	case OXor:
+		a, b := have.Args[0], have.Args[1]
+		if isStreamish(a) {
+			return c.And(ex.idealEqByte(a, want), c.Eq(b, c.Const(b.Sort, 0)))
+		}
+		if isStreamish(b) {
+			return c.And(ex.idealEqByte(b, want), c.Eq(a, c.Const(a.Sort, 0)))
+		}
 	}
 	return c.Eq(have, want)
 }
 
-func (ex *Exec) holds(ct symContent, lo, hi, tshift *Term, name string, depth int) *Term {
-	c := ex.C
-	if depth > 40 {
-		panic(unsupported("content tree too deep in ciphertext comparison"))
+// isStreamish: a stream byte or an ite/xor structure over stream bytes.
+func isStreamish(t *Term) bool {
+	switch t.Op {
+	case OUF:
+		return len(t.Args) == 1
+	case OIte:
+		return isStreamish(t.Args[1]) || isStreamish(t.Args[2])
+	case OXor:
+		return isStreamish(t.Args[0]) || isStreamish(t.Args[1])
 	}
-	empty := ex.emptyIv(lo, hi)
-	if empty.IsTrue() {
-		return c.True()
-	}
-	switch n := ct.(type) {
-	case symBase:
-		if n.name == name {
-			return c.Or(empty, c.Eq(tshift, ex.i64(0)))
-		}
-		return empty
-	case symZero:
-		return empty
-	case *symStore:
-		in := c.And(c.Cmp(OSle, lo, n.idx), c.Cmp(OSlt, n.idx, hi))
-		rest := ex.holds(n.prev, lo, hi, tshift, name, depth+1)
-		if in.IsFalse() {
-			return rest
-		}
-		want := c.UF(name, BV(8), c.Bin(OAdd, n.idx, tshift))
-		at := ex.idealEqByte(n.val.(*Term), want)
-		split := c.AndN(at,
-			ex.holds(n.prev, lo, n.idx, tshift, name, depth+1),
-			ex.holds(n.prev, c.Bin(OAdd, n.idx, ex.i64(1)), hi, tshift, name, depth+1))
-		return c.Ite(in, split, rest)
-	case *symCopy:
-		dend := c.Bin(OAdd, n.doff, n.n)
-		// intersection of [lo,hi) with [doff, dend)
-		ilo := c.Ite(c.Cmp(OSlt, lo, n.doff), n.doff, lo)
-		ihi := c.Ite(c.Cmp(OSlt, dend, hi), dend, hi)
-		// before and after parts fall through to prev
-		blo, bhi := lo, c.Ite(c.Cmp(OSlt, n.doff, hi), n.doff, hi)
-		alo, ahi := c.Ite(c.Cmp(OSlt, lo, dend), dend, lo), hi
-		// inside: x_src = x - doff + soff ; target index = x + tshift = x_src + (doff - soff + tshift)
-		sh := c.Bin(OSub, n.soff, n.doff)
-		slo, shi := c.Bin(OAdd, ilo, sh), c.Bin(OAdd, ihi, sh)
-		nts := c.Bin(OAdd, c.Bin(OSub, n.doff, n.soff), tshift)
-		var inside *Term
-		if n.srcDense != nil {
-			inside = c.Or(ex.emptyIv(ilo, ihi), ex.holdsDense(n.srcDense, slo, shi, nts, name))
-		} else {
-			inside = c.Or(ex.emptyIv(ilo, ihi), ex.holds(n.src, slo, shi, nts, name, depth+1))
-		}
-		zeroLen := c.Cmp(OSle, n.n, ex.i64(0))
-		whole := ex.holds(n.prev, lo, hi, tshift, name, depth+1)
-		parts := c.AndN(inside, ex.holds(n.prev, blo, bhi, tshift, name, depth+1), ex.holds(n.prev, alo, ahi, tshift, name, depth+1))
-		return c.Ite(zeroLen, whole, parts)
-	}
-	panic(fmt.Sprintf("holds: %T", ct))
+	return false
 }
